@@ -4,6 +4,7 @@ import (
 	"fmt"
 	"strconv"
 
+	"github.com/cockroachdb/pebble"
 	"github.com/cockroachdb/pebble/verifharness/dbm"
 	"pgregory.net/rapid"
 )
@@ -157,7 +158,7 @@ func tweakOptions(t *rapid.T, o *dbm.OptPlan) {
 	o.L0Compaction = rapid.IntRange(1, 2).Draw(t, "fl0c")
 	o.L0CompactionFiles = rapid.SampledFrom([]int{1, 2, 4}).Draw(t, "fl0f")
 	o.DisableWAL = rapid.IntRange(0, 9).Draw(t, "fnowal") == 0
-	if o.ValSep && rapid.IntRange(0, 2).Draw(t, "fvalsep") != 0 {
+	if o.ValSep && rapid.IntRange(0, 2).Draw(t, "fvalsep") == 0 {
 		o.ValSep = false
 	}
 	o.CacheSize = rapid.SampledFrom([]int64{1 << 10, 1 << 10, 64 << 10}).Draw(t, "fcache")
@@ -183,8 +184,8 @@ var ruleMotifs = []struct {
 	{[]string{"create"}, []string{"wal"}, false, 4},
 	{[]string{"write"}, []string{"manifest"}, false, 5},
 	{[]string{"sync"}, []string{"manifest"}, false, 6},
-	{[]string{"read", "open"}, []string{"blob"}, false, 3},
-	{[]string{"write", "sync", "create"}, []string{"blob"}, false, 3},
+	{[]string{"read", "open"}, []string{"blob"}, false, 6},
+	{[]string{"write", "sync", "create"}, []string{"blob"}, false, 6},
 	{[]string{"dirsync"}, nil, false, 5},
 	{[]string{"meta"}, nil, false, 6},
 	{[]string{"read"}, []string{"wal"}, true, 6},
@@ -264,8 +265,13 @@ func genPlan(t *rapid.T) Plan {
 		l := fmt.Sprintf("r%d", i)
 		r, restart := g.rule(l, n, offAt, setup)
 		if len(r.Classes) == 1 && r.Classes[0] == "blob" && !p.Opt.ValSep {
-			// no blob files without value separation: aim at the tables instead
-			r.Classes = []string{"sst"}
+			// no blob files without value separation: enable it where the format
+			// version allows, otherwise aim at the tables instead.
+			if p.Opt.FMV >= int(pebble.FormatValueSeparation) {
+				p.Opt.ValSep, p.Opt.ValSepMinSize, p.Opt.ValSepDepth, p.Opt.ValSepGarbageLow = true, 32, 2, 30
+			} else {
+				r.Classes = []string{"sst"}
+			}
 		}
 		if len(r.Classes) == 1 && r.Classes[0] == "manifest" && contains(r.Kinds, "sync") && rapid.Bool().Draw(t, l+"nowal") {
 			// Without a WAL the MANIFEST is the only thing that makes a flush durable
